@@ -39,7 +39,10 @@ RULE = ("quick: every string of length <= 3 over a 35-symbol alphabet (letters, 
         "separator glyphs incl. typographic ones, both quotes, # $ !), every string of length <= 8 over {\",',a,:,space}, "
         "every string of length <= 6 over {1,9,0,.,E,+,-,newline} (scientific-notation regex), seeded strings of length 4..40 "
         "biased to brackets and literals, every error code with prefixes/suffixes, formulas read from sample fixtures; thorough "
-        "adds length 4 and all fixtures. A case is non-trivial when the input is non-empty; distinct by input text")
+        "adds length 4 and all fixtures. A case is non-trivial when the input is non-empty; distinct by input text. Translated "
+        "definitions: every Tokenizer method on every loop-head state of every string of length <= 3 over the same alphabet plus "
+        "hand-made states (distinct by method and state), the Token constructors on every text of length <= 3 over {(,),{,},a,NL} "
+        "and every type x subtype, and every tokenize request above also through the translated parse")
 ASSUMPTIONS = ["Python `re` is replaced by hand-derived scanners; equivalence exercised exhaustively on short strings",
                "translated definitions: the semantics py2lean / Py/Trans.lean give to the Python subset (state threading of self.*, "
                "Token as a structure with the class constants as enum members - checked distinct on the live class on every run -, "
